@@ -362,10 +362,9 @@ func (h *httproto) unpack(m erpc.Message, bb *utils.ByteBuffer) (size int, msg [
 		}
 		if bytes.Equal(contentLengthBytes, a[0]) {
 			bodySize, err = strconv.Atoi(goutil.BytesToString(a[1]))
-			if err != nil {
+			if err != nil || bodySize < 0 {
 				return 0, nil, errBadHTTPMsg
 			}
-			size += bodySize
 			continue
 		}
 		if bytes.Equal(xContentEncodingBytes, a[0]) {
@@ -399,6 +398,9 @@ func (h *httproto) unpack(m erpc.Message, bb *utils.ByteBuffer) (size int, msg [
 	if bodySize <= 0 {
 		return size, msg, nil
 	}
+	// the length that counts is the one the body is read with (a repeated
+	// Content-Length must not be able to offset an earlier one)
+	size += bodySize
 	// refuse an oversized message before buffering its body
 	if uint64(size) > uint64(erpc.GetReadLimit()) {
 		return 0, nil, socket.ErrExceedMessageSizeLimit
